@@ -308,7 +308,7 @@ def run(pid, cfg, args, b, drv):
     except Exception as e:  # harness cannot import the module: inconclusive
         print("INCONCLUSIVE property=%s reason=cannot import conf/route_control.py with stubs: %r" % (pid, e))
         return 2
-    nh = 20000 if args.tier == "quick" else 400000
+    nh = 20000 if args.tier == "quick" else 2000000
     ev_total = checks = 0
     for h in range(nh):
         rng = random.Random((args.seed << 32) ^ (h * 2654435761 & 0xFFFFFFFF))
